@@ -162,7 +162,7 @@ theorem seqRun_getElem (flags : List Bool) : ∀ (s i : Nat) (h : i < flags.leng
     intro s i h
     cases i with
     | zero =>
-      simp only [seqRun, nextSeq, Facts.C08.seqFactor]
+      simp only [seqRun, nextSeq]
       cases f <;> simp <;> omega
     | succ j =>
       have hj : j < fs.length := by simpa using h
@@ -243,12 +243,81 @@ theorem holdsFrom_obsFrom (secs : List (Int × Bool)) : ∀ (s : Conn) (prev : O
     have hsent : (nextMsgSeq s c f).1.sent = if f then s.sent + 1 else s.sent := by
       cases f <;> simp [nextMsgSeq, nextSeq]
     have hseq : (nextMsgSeq s c f).2.2 = 2 * s.sent + (if f then 1 else 0) := by
-      cases f <;> simp [nextMsgSeq, nextSeq, Facts.C08.seqFactor] <;> omega
+      cases f <;> simp [nextMsgSeq, nextSeq] <;> omega
     rw [hsent] at hrec
     rw [hrec, hid, hseq]
     simp only [hmod, decide_true, Bool.and_true]
     rcases hprev with h | h
     · subst h; simp
     · subst h; simp [hlt]
+
+/-! ### the translated code equals the hand-written model -/
+
+theorem newMessageIDNanoT_eq (n t : Nat) :
+    Facts.C08.newMessageIDNanoT (n : Int) (t : Int) = (newMessageIDNano n t : Int) := by
+  unfold Facts.C08.newMessageIDNanoT newMessageIDNano yieldOf
+  simp only [typFromClient, typFromServer, typServerResponse, yieldClient, yieldFromServer, yieldServerResponse,
+    Facts.C08.typeFromClient, Facts.C08.typeFromServer, Facts.C08.typeServerResponse,
+    Facts.C08.yieldClient, Facts.C08.yieldFromServer, Facts.C08.yieldServerResponse]
+  by_cases h1 : t = 1
+  · subst h1; simpa using newMessageIDT_eq n 0
+  · by_cases h3 : t = 3
+    · subst h3; simpa using newMessageIDT_eq n 3
+    · by_cases h2 : t = 2
+      · subst h2; simpa using newMessageIDT_eq n 1
+      · have e1 : ¬ ((t : Int) = 1) := by omega
+        have e3 : ¬ ((t : Int) = 3) := by omega
+        have e2 : ¬ ((t : Int) = 2) := by omega
+        simp only [e1, e2, e3, h1, h2, h3, decide_false, if_false, Bool.false_eq_true]
+        simpa using newMessageIDT_eq n 0
+
+/-- Robust form: whatever shape the translated condition and branches have, split on it and let
+`omega` relate it to the model's condition. -/
+theorem genNewT_eq (g : Nat) (c : Int) (t : Nat) :
+    genNewT g c t = (newMessageID (genNext g c) (yieldOf t), genNext g c) := by
+  have hN : ∀ n : Nat, Facts.C08.newMessageIDNanoT (n : Int) (t : Int) = ((newMessageID n (yieldOf t) : Nat) : Int) :=
+    fun n => newMessageIDNanoT_eq n t
+  have key : Facts.C08.genNewT (t : Int) (g : Int) c
+      = (((newMessageID (genNext g c) (yieldOf t) : Nat) : Int), ((genNext g c : Nat) : Int)) := by
+    unfold Facts.C08.genNewT
+    rcases genNext_cases g c with ⟨h, e⟩ | ⟨h, e⟩
+    · have hnn : ((c.toNat : Nat) : Int) = c := by omega
+      rw [e, ← hN, hnn]
+      simp only []
+      split <;> rename_i hc <;> simp at hc <;> first | rfl | omega
+    · have hg : (((g + 10 : Nat)) : Int) = (g : Int) + 10 := by omega
+      rw [e, ← hN, hg]
+      simp only []
+      split <;> rename_i hc <;> simp at hc <;> first | rfl | omega
+  unfold genNewT
+  rw [key]
+  simp
+
+theorem genIdsT_eq (calls : List (Int × Nat)) : ∀ g,
+    genIdsT g calls = genIds g (calls.map fun p => (p.1, yieldOf p.2)) := by
+  induction calls with
+  | nil => intro g; rfl
+  | cons p rest ih =>
+    intro g
+    obtain ⟨c, t⟩ := p
+    simp only [genIdsT, genIds, genIdsWith, List.map_cons, genNewT_eq]
+    have := ih (genNext g c)
+    simp only [genIds] at this
+    rw [this]
+
+theorem nextMsgSeqT_eq (s : Conn) (c : Int) (f : Bool) : nextMsgSeqT s c f = nextMsgSeq s c f := by
+  unfold nextMsgSeqT nextMsgSeq
+  rw [genNewT_eq]
+  have ht : Facts.C08.connNewType = typFromClient := rfl
+  unfold Facts.C08.nextMsgSeqT nextSeq
+  cases f <;> simp [ht] <;> omega
+
+theorem connRunT_eq (secs : List (Int × Bool)) : ∀ s, connRunT s secs = connRun s secs := by
+  induction secs with
+  | nil => intro s; rfl
+  | cons p rest ih =>
+    intro s
+    obtain ⟨c, f⟩ := p
+    simp only [connRunT, connRun, nextMsgSeqT_eq, ih]
 
 end TdModel.C08
